@@ -105,19 +105,20 @@ SHARED = {}
 
 def _shared_operand(curve):
     """two threads work on their own points but use ONE shared point object Q as a read-only operand
-    (addition, comparison, negation/copy, coordinate export)"""
+    (addition, comparison with Q as right and as left operand, negation/copy, coordinate export)"""
     def mk(k):
         def body():
             from Crypto.PublicKey._point import _curves
             Q = SHARED[curve]
             G = _curves[curve].G
             P = G * k
+            C = Q.copy()                   # an equal point of this thread's own: Q == C must stay True
             if curve in ("curve25519", "curve448"):
-                return "%x,%s,%x" % (int(P.x), P == Q, int(Q.x))
+                return "%x,%s,%s,%s,%x" % (int(P.x), P == Q, Q == P, Q == C, int(Q.x))
             R = P + Q
             N = -Q
             x, y = Q.xy
-            return "%x,%x,%s,%x,%x" % (int(R.x), int(R.y), P == Q, int(N.y), int(x) ^ int(y))
+            return "%x,%x,%s,%s,%s,%x,%x" % (int(R.x), int(R.y), P == Q, Q == P, Q == C, int(N.y), int(x) ^ int(y))
         return body
     return mk(0x1234567), mk(2 ** 150 + 12345)
 
